@@ -166,6 +166,10 @@ func (u *Unmarshaler) fillSlice(fieldType reflect.Type, value reflect.Value, map
 	dereffedBaseType := Deref(baseType)
 	dereffedBaseKind := dereffedBaseType.Kind()
 	refValue := reflect.ValueOf(mapValue)
+	if refValue.Kind() != reflect.Slice {
+		return errTypeMismatch
+	}
+
 	if refValue.IsNil() {
 		return nil
 	}
@@ -186,8 +190,13 @@ func (u *Unmarshaler) fillSlice(fieldType reflect.Type, value reflect.Value, map
 		valid = true
 		switch dereffedBaseKind {
 		case reflect.Struct:
+			ithMap, ok := ithValue.(map[string]any)
+			if !ok {
+				return errTypeMismatch
+			}
+
 			target := reflect.New(dereffedBaseType)
-			if err := u.Unmarshal(ithValue.(map[string]any), target.Interface()); err != nil {
+			if err := u.Unmarshal(ithMap, target.Interface()); err != nil {
 				return err
 			}
 
@@ -253,6 +262,10 @@ func (u *Unmarshaler) fillSliceValue(slice reflect.Value, index int,
 	case string:
 		return setValue(baseKind, ithVal, v)
 	case map[string]any:
+		if ithVal.Kind() != reflect.Map {
+			return errTypeMismatch
+		}
+
 		return u.fillMap(ithVal.Type(), ithVal, value)
 	default:
 		// don't need to consider the difference between int, int8, int16, int32, int64,
@@ -515,7 +528,12 @@ func (u *Unmarshaler) processFieldNotFromString(fieldType reflect.Type, value re
 	case valueKind == reflect.String && typeKind == reflect.Slice:
 		return u.fillSliceFromString(fieldType, value, mapValue)
 	case valueKind == reflect.String && derefedFieldType == durationType:
-		return fillDurationValue(fieldType.Kind(), value, mapValue.(string))
+		dur, ok := mapValue.(string)
+		if !ok {
+			return newTypeMismatchError(fullName)
+		}
+
+		return fillDurationValue(fieldType.Kind(), value, dur)
 	default:
 		return u.processFieldPrimitive(fieldType, value, mapValue, opts, fullName)
 	}
@@ -746,7 +764,12 @@ func (u *Unmarshaler) processNamedFieldWithValue(fieldType reflect.Type, value r
 
 			options := opts.options()
 			if len(options) > 0 {
-				if !stringx.Contains(options, mapValue.(string)) {
+				text, ok := mapValue.(string)
+				if !ok {
+					return fmt.Errorf("错误：字典值的值不是字符串，而是 %T", mapValue)
+				}
+
+				if !stringx.Contains(options, text) {
 					return fmt.Errorf(`错误：字段 "%s" 的值 "%s" 未定义在选项 "%v" 中`,
 						key, vp, options)
 				}
